@@ -515,7 +515,7 @@ STAMP_NS = 1600000000 * 10**9
 LAST_STAMPS = []
 
 
-def run_impl(base, top, opts, allow_create, allow_xdev, ops, order_key, real_faults=()):
+def run_impl(base, top, opts, allow_create, allow_xdev, ops, order_key, real_faults=(), jobs=None):
     """run the operation sequence on the implementation; results in the model's shape"""
     del LAST_STAMPS[:]
     import gemato.recursiveloader as rl
@@ -528,7 +528,8 @@ def run_impl(base, top, opts, allow_create, allow_xdev, ops, order_key, real_fau
                                           sign_openpgp=sign, openpgp_keyid=keyid, hashes=hashes,
                                           allow_create=bool(create), sort=(True if sort else None),
                                           compress_watermark=wm, compress_format=(fmt or None),
-                                          profile=gp.get_profile_by_name(profile), allow_xdev=bool(allow_xdev))
+                                          profile=gp.get_profile_by_name(profile), allow_xdev=bool(allow_xdev),
+                                          **({} if jobs is None else {'max_jobs': jobs}))
     with FaultInjector(real_faults), ScandirOrder(order_key):
         try:
             m = mk(allow_create)
